@@ -16,6 +16,7 @@ Every recorded outcome is a line of a trace judged by Trace_Load.tla: Ok, or Err
 still answers `1 + 1` and a name that did load; a crash (panic / abort / hang) matches no action of the spec.
 """
 import json
+import os
 import random
 import re
 
@@ -30,10 +31,11 @@ PROP = "C13"
 def slim(res, built_cycle=False):
     """one rv-load jobs result -> one line for Trace_Load"""
     if "crash" in res:
-        return {"k": res.get("kind", "defs"), "o": "crash", "n": 0, "e": False, "s": False, "m": False, "c": built_cycle, "r": False}
+        return {"k": res.get("kind", "defs"), "o": "crash", "n": 0, "e": False, "s": False, "m": False, "c": built_cycle, "r": False, "p": False}
     a = res.get("after", {})
     return {"k": res.get("kind", "defs"), "o": res["outcome"], "n": res.get("nmsg", 0), "e": bool(res.get("empty_text", False)),
-            "s": bool(a.get("sum_ok")), "m": bool(a.get("name_ok", True)), "c": built_cycle, "r": bool(res.get("cycle_reported"))}
+            "s": bool(a.get("sum_ok")), "m": bool(a.get("name_ok", True)), "c": built_cycle, "r": bool(res.get("cycle_reported")),
+            "p": bool(res.get("phantom"))}
 
 
 class Leg:
@@ -57,11 +59,14 @@ class Leg:
         t0 = time.time()
         res = lk.run_load("jobs", self.jobs, shards=shards, tag="c13" + self.name, timeout_ms=timeout_ms)
         # a verdict resting on a time limit is re-run alone with a generous limit before it is believed
+        confirmed = 0
         for i, r in enumerate(res):
-            if r.get("crash") == "timeout":
+            if r.get("crash") == "timeout" and confirmed < 6:     # once six hangs are confirmed alone the others are believed
                 again = lk.run_load("jobs", [self.jobs[i]], shards=1, tag="c13retry", timeout_ms=timeout_ms * 4)[0]
                 if again.get("crash") != "timeout":
                     res[i] = again
+                else:
+                    confirmed += 1
         t1 = time.time()
         events = [slim(r, cyc) for r, (_, cyc, _) in zip(res, self.meta)]
         verdicts, st = evalkit.judge(events, "Trace_Load", "Trace_Load", shards=shards, tag="c13j" + self.name, min_per_shard=min_per_shard)
@@ -85,6 +90,8 @@ class Leg:
                     allows = "Ok or Err(messages); never a panic, an abort or a hang"
                 elif cyc and not ev["r"]:
                     allows = "the dependency cycle built into the text is reported"
+                elif ev.get("p"):
+                    allows = "a name whose definition failed (or was never given) does not answer after the load: %s" % r.get("phantom")
                 elif not (ev["s"] and ev["m"]):
                     allows = "after the load the context answers `1 + 1` and a name that did load"
                 else:
@@ -266,6 +273,19 @@ def leg_chains(run, thorough):
     }
     for k, text in props.items():
         leg.add({"defs": text, "probe": "x"}, {"family": "substance-property", "variant": k, "text": text}, nontrivial="prop:" + k)
+    # a substance that fails after some of its properties evaluated: nothing of it may stay visible, neither to later
+    # definitions of the same load, nor to queries, nor to a later load on the same context
+    partial = {
+        "second-property-fails": "m !\nkg !\nfoo {\n density const d1 1000 kg / m^3\n bad const b1 3 nosuchunit\n}\ncargo 3 density\nx 3 m\n",
+        "third-property-fails": "m !\nkg !\ns !\nfoo {\n p1 const c1 2 m\n p2 const c2 5 kg\n p3 const c3 1 nosuchunit\n}\nu1 7 p1\nu2 c2\nx 3 m\n",
+        "in-out-form-fails": "m !\nkg !\nfoo {\n dens out 3 kg / inp 2 m^3\n bad out 1 nosuch / inp 1 m\n}\nv 2 dens\nw 2 out\nx 3 m\n",
+        "failing-substance-last": "m !\nkg !\nx 3 m\ncargo 3 density\nfoo {\n density const d1 1000 kg / m^3\n bad const b1 3 nosuchunit\n}\n",
+    }
+    undefd = {"second-property-fails": ["cargo", "density", "d1", "foo"], "third-property-fails": ["u1", "u2", "p1", "c2", "foo"],
+              "in-out-form-fails": ["v", "w", "dens", "out", "foo"], "failing-substance-last": ["cargo", "density", "d1", "foo"]}
+    for k, text in partial.items():
+        leg.add({"defs": text, "probe": "x", "undefined": undefd[k]}, {"family": "partial-substance", "variant": k, "text": text},
+                nontrivial="partial:" + k)
     # degenerate numeric definitions in the loader's own little evaluators (prefixes, quantities) and in unit definitions
     nums = {
         "prefix-div-zero": "a- 1|0\nx 3\n", "prefix-div-zero-slash": "a- 1/0\nx 3\n", "prefix-zero-neg-power": "a- 0^-1\nx 3\n",
@@ -438,8 +458,9 @@ def leg_mutants(run, thorough, seed):
 
 def selfcheck(run):
     """the binding is not vacuous: a recorded crash, a silent cycle and a context that stopped answering are rejected"""
-    good = {"k": "defs", "o": "err", "n": 2, "e": False, "s": True, "m": True, "c": True, "r": True}
-    bad = [dict(good, o="crash", n=0, s=False, m=False), dict(good, r=False), dict(good, s=False), dict(good, n=0), dict(good, o="ok", n=0)]
+    good = {"k": "defs", "o": "err", "n": 2, "e": False, "s": True, "m": True, "c": True, "r": True, "p": False}
+    bad = [dict(good, o="crash", n=0, s=False, m=False), dict(good, r=False), dict(good, s=False), dict(good, n=0), dict(good, o="ok", n=0),
+           dict(good, p=True)]
     verdicts, _ = evalkit.judge([good] + bad, "Trace_Load", "Trace_Load", shards=1, tag="c13self")
     if "REJECT" in verdicts.get(0, set()) or any("REJECT" not in verdicts.get(i + 1, set()) for i in range(len(bad))):
         raise vlib.ToolError("self-check: Trace_Load did not separate the corrupted lines from the good one")
@@ -447,6 +468,7 @@ def selfcheck(run):
 
 
 def run(tier, seed):
+    os.environ.setdefault("VERIF_MAX_TIMEOUTS", "25")     # per worker batch: a hang on a whole input family is reported, not waited out
     run = vlib.Run(PROP, tier, seed, "model_checking")
     thorough = tier == "thorough"
     run.cov["rule"] = ("M: every dependency graph over 3-4 (thorough: 5) named definitions (Loader.tla), the quick graphs also loaded by the "
